@@ -221,6 +221,34 @@ func c09Probe(r *simcore.Run, e *storeEnv, dst, what string, n uint64, exports m
 	tx := store.NewTx(16, 64)
 	for id := uint64(1); id <= n; id++ {
 		lt := e.led[id]
+		if e.cfg.VCache > 0 && r.Pct(20) {
+			// (only where a value cache exists; an unchecked read of a corrupted length can
+			// allocate gigabytes, which is outside this property, so it is kept rare)
+			// a read that skips the integrity checks comes first (a replica fetching with
+			// SkipIntegrityCheck): whatever it leaves in the caches must not be served to
+			// the checked reads that follow
+			r.Catch(func() { st.ExportTx(id, false, true, tx) })
+			r.Probe("c09-unchecked-read-first")
+		}
+		// single-entry reads, every entry of the transaction
+		for i, le := range lt.Entries {
+			var te *store.TxEntry
+			pv, stack := r.Catch(func() { te, _, err = st.ReadTxEntry(id, le.Key, false) })
+			if pv != nil {
+				r.Violation("panic", "", "%sReadTxEntry(tx %d, %q) panicked: %v\n%s", what, id, le.Key, pv, stack)
+			}
+			if err != nil {
+				r.Probe("c09-read-refused")
+				continue
+			}
+			var md []byte
+			if te.Metadata() != nil {
+				md = te.Metadata().Bytes()
+			}
+			if !bytes.Equal(te.Key(), le.Key) || !bytes.Equal(md, le.MD) || te.HVal() != sha256.Sum256(le.Value) {
+				served("ReadTxEntry", id, "entry %d differs: key %q md %x, committed key %q md %x", i, te.Key(), md, le.Key, le.MD)
+			}
+		}
 		pv, stack := r.Catch(func() { err = st.ReadTx(id, false, tx) })
 		if pv != nil {
 			r.Violation("panic", "", "%sReadTx(%d) panicked: %v\n%s", what, id, pv, stack)
